@@ -646,12 +646,31 @@ func eq_Map_Map(a reflect.Value, b reflect.Value) bool {
 // equality matrix. trivial elements
 
 func eq_Int_Int     (a int64, b int64)      bool { return a == b }
-func eq_Int_Float   (a int64, b float64)    bool { return float64(a) == b }
-func eq_Int_Complex (a int64, b complex128) bool { return complex(float64(a), 0) == b }
+func eq_Int_Complex (a int64, b complex128) bool { return imag(b) == 0 && eq_Int_Float(a, real(b)) }
 
 func eq_Uint_Uint    (a uint64, b uint64)     bool { return a == b }
-func eq_Uint_Float   (a uint64, b float64)    bool { return float64(a) == b }
-func eq_Uint_Complex (a uint64, b complex128) bool { return complex(float64(a), 0) == b }
+func eq_Uint_Complex (a uint64, b complex128) bool { return imag(b) == 0 && eq_Uint_Float(a, real(b)) }
+
+// integer vs float is compared exactly, as Python does: float64(a) would round
+// for |a| > 2^53 and make e.g. 2^53+1 equal to float 2^53.
+
+func eq_Int_Float(a int64, b float64) bool {
+	// only floats in [-2^63, 2^63) can equal an int64 (also rejects NaN and ±Inf)
+	if !(-0x1p63 <= b && b < 0x1p63) {
+		return false
+	}
+	i := int64(b) // exact if b is integral, truncated otherwise
+	return float64(i) == b && i == a
+}
+
+func eq_Uint_Float(a uint64, b float64) bool {
+	// only floats in [0, 2^64) can equal a uint64 (also rejects NaN and ±Inf)
+	if !(0 <= b && b < 0x1p64) {
+		return false
+	}
+	u := uint64(b) // exact if b is integral, truncated otherwise
+	return float64(u) == b && u == a
+}
 
 func eq_Float_Float    (a float64, b float64)     bool { return a == b }
 func eq_Float_Complex  (a float64, b complex128)  bool { return complex(a, 0) == b }
